@@ -306,6 +306,15 @@ static std::map<int, std::unique_ptr<Actor>> g_actors;
 static std::map<int, uint32_t> g_actor_tid;     // actor -> quill thread id (for canonical notifier text)
 static std::map<int, std::shared_ptr<RecSink>> g_sinks_keepalive; // dropped when the script says so
 static std::map<int, RecSink*> g_sinks;
+// sinks the application built itself (std::make_shared) and hands to create_or_get_logger directly: the SinkManager
+// registry never sees them (sink line flag unreg=1)
+static std::map<int, std::weak_ptr<RecSink>> g_unreg;
+static std::shared_ptr<quill::Sink> lookup_sink(int sid)
+{
+  auto it = g_unreg.find(sid);
+  if (it != g_unreg.end()) { return it->second.lock(); }
+  return FE::get_sink("s" + std::to_string(sid));
+}
 static void forget_sink(int sid) { g_sinks.erase(sid); }
 static std::map<int, LoggerT*> g_loggers;
 static std::map<int, std::vector<int>> g_logger_sinks;
@@ -687,7 +696,7 @@ static std::string exec_op(std::vector<std::string> const& w)
     {
       int const sid = std::stoi(s);
       std::shared_ptr<quill::Sink> sp;
-      try { sp = FE::get_sink("s" + std::to_string(sid)); } catch (...) { return "noop"; }
+      try { sp = lookup_sink(sid); } catch (...) { return "noop"; }
       if (!sp) { return "noop"; }
       sinks.push_back(sp);
       sids.push_back(sid);
@@ -887,13 +896,30 @@ int main(int argc, char** argv)
     {
       int const sid = std::stoi(w[1]);
       std::string pat;
-      for (size_t i = 2; i < w.size(); ++i) { if (w[i].rfind("pat=", 0) == 0) { pat = w[i].substr(4); } }
+      bool unreg = false;
+      for (size_t i = 2; i < w.size(); ++i)
+      {
+        if (w[i].rfind("pat=", 0) == 0) { pat = w[i].substr(4); }
+        if (w[i] == "unreg=1") { unreg = true; }
+      }
       // pat=bad: an override pattern with an unknown attribute (the backend's PatternFormatter constructor throws);
-      // pat=ok: a valid override pattern
-      auto sp = pat.empty()
-        ? std::static_pointer_cast<RecSink>(FE::create_or_get_sink<RecSink>("s" + std::to_string(sid), sid))
-        : std::static_pointer_cast<RecSink>(FE::create_or_get_sink<RecSink>(
-            "s" + std::to_string(sid), sid, quill::PatternFormatterOptions{pat == "bad" ? "%(mesage)" : "%(message)"}));
+      // pat=ok: a valid override pattern; unreg=1: built with make_shared, never in the SinkManager registry
+      std::shared_ptr<RecSink> sp;
+      if (unreg)
+      {
+        sp = pat.empty() ? std::make_shared<RecSink>(sid)
+                         : std::make_shared<RecSink>(sid, quill::PatternFormatterOptions{pat == "bad" ? "%(mesage)" : "%(message)"});
+        g_unreg[sid] = sp;
+      }
+      else if (pat.empty())
+      {
+        sp = std::static_pointer_cast<RecSink>(FE::create_or_get_sink<RecSink>("s" + std::to_string(sid), sid));
+      }
+      else
+      {
+        sp = std::static_pointer_cast<RecSink>(FE::create_or_get_sink<RecSink>(
+          "s" + std::to_string(sid), sid, quill::PatternFormatterOptions{pat == "bad" ? "%(mesage)" : "%(message)"}));
+      }
       g_sinks[sid] = sp.get();
       g_sinks_keepalive[sid] = sp;
       for (size_t i = 2; i < w.size(); ++i)
@@ -929,7 +955,7 @@ int main(int argc, char** argv)
         {
           for (auto const& s : split(kv[1], ','))
           {
-            sinks.push_back(FE::get_sink("s" + s));
+            sinks.push_back(lookup_sink(std::stoi(s)));
             sids.push_back(std::stoi(s));
           }
         }
